@@ -15,6 +15,8 @@ use thiserror::Error;
 use pyo3::prelude::*;
 
 mod engine;
+#[cfg(tyberiusprime_pypipegraph2_verif)]
+pub mod verif;
 #[cfg(test)]
 mod tests;
 
